@@ -231,7 +231,23 @@ def main():
                     continue
                 violations.append((r, wit))
             elif r['status'] == 'undecided':
-                undecided.append(r)
+                # The verifier could not process the unit (changed code uses a construct outside its reach, or an anchor
+                # was lost).  Bounded stand-in, labelled as such: search for a concrete failing input on the real code.
+                # A found input is a real violation (replayed on the real code); none found => stays undecided (exit 2).
+                wit = None
+                try:
+                    wit = registry.witness(pid, r, workdir, seed)
+                except Exception as ex:
+                    wit = {'found': False, 'error': repr(ex)}
+                if wit and wit.get('found'):
+                    r['failed'] = [{'class': 'bounded-stand-in', 'function': None, 'section': r['unit'],
+                                    'message': 'verifier could not process the current code (%s); bounded search on the real code found a failing input' % (r.get('reason') or '')[:300],
+                                    'text': None}]
+                    r['bounded_stand_in'] = True
+                    violations.append((r, wit))
+                else:
+                    r['witness_search'] = wit
+                    undecided.append(r)
 
         # ---- known findings (never written at run time)
         kf_lines, kf_unlisted = registry.known_findings(pid, load_known(), workdir, seed)
